@@ -9,11 +9,14 @@ Import ListNotations.
 
 Section Protocol.
 Context {T : Type} (O : Ops T).
+Inductive ekind := ENotInit | ERange | EWrongGradient.   (* gradients_not_initialized, gradient_out_of_range, wrong_gradient *)
 Record pstate := mkP {
-  tp : tape (T:=T); buf : nat -> T; init : bool; ngrad : nat; nalloc : nat;
+  tp : tape (T:=T); buf : nat -> T; init : bool; ngrad : nat;
+  ninit : nat;     (* n_gradients_initialized_: entries zeroed by the last initialize_gradients *)
+  nalloc : nat;    (* n_allocated_gradients_: length of the buffer *)
   indep : list nat; dep : list nat; recording : bool;
-  errs : nat;      (* exceptions thrown so far (gradients_not_initialized, gradient_out_of_range, wrong_gradient) *)
-  oob : nat        (* stores beyond the allocated buffer (never happens when the protocol is respected) *)
+  errs : list ekind;   (* exceptions thrown so far, most recent first *)
+  oob : nat            (* accesses at or beyond the allocated length (never happens: theorem) *)
 }.
 Inductive pop :=
 | ORecord (s : stmt (T:=T))            (* a differential statement produced by user code *)
@@ -25,15 +28,26 @@ Inductive pop :=
 | OAddDep (l : nat) (ops : list (T * nat)) | OAppendDep (l : nat) (ops : list (T * nat)).
 
 Definition stmt_lt (n : nat) (s : stmt (T:=T)) : bool := Nat.ltb (lhs s) n && forallb (fun mi => Nat.ltb (snd mi) n) (rhs s).
-Definition initialize (st : pstate) : pstate :=
-  mkP (tp st) (fun i => if Nat.ltb i (ngrad st) then o0 O else buf st i) true (ngrad st) (Nat.max (nalloc st) (ngrad st))
-      (indep st) (dep st) (recording st) (errs st) (oob st).
 Definition set_tp (st : pstate) (t : tape) : pstate :=
-  mkP t (buf st) (init st) (ngrad st) (nalloc st) (indep st) (dep st) (recording st) (errs st) (oob st).
+  mkP t (buf st) (init st) (ngrad st) (ninit st) (nalloc st) (indep st) (dep st) (recording st) (errs st) (oob st).
 Definition set_buf (st : pstate) (b : nat -> T) : pstate :=
-  mkP (tp st) b (init st) (ngrad st) (nalloc st) (indep st) (dep st) (recording st) (errs st) (oob st).
-Definition add_err (st : pstate) : pstate :=
-  mkP (tp st) (buf st) (init st) (ngrad st) (nalloc st) (indep st) (dep st) (recording st) (S (errs st)) (oob st).
+  mkP (tp st) b (init st) (ngrad st) (ninit st) (nalloc st) (indep st) (dep st) (recording st) (errs st) (oob st).
+Definition add_err (st : pstate) (k : ekind) : pstate :=
+  mkP (tp st) (buf st) (init st) (ngrad st) (ninit st) (nalloc st) (indep st) (dep st) (recording st) (k :: errs st) (oob st).
+Definition set_lists (st : pstate) (xi xd : list nat) : pstate :=
+  mkP (tp st) (buf st) (init st) (ngrad st) (ninit st) (nalloc st) xi xd (recording st) (errs st) (oob st).
+Definition set_recording (st : pstate) (r : bool) : pstate :=
+  mkP (tp st) (buf st) (init st) (ngrad st) (ninit st) (nalloc st) (indep st) (dep st) r (errs st) (oob st).
+(* initialize_gradients (Stack.cpp): reallocate if too short, zero [0, max_gradient), remember that length *)
+Definition initialize (st : pstate) : pstate :=
+  mkP (tp st) (fun i => if Nat.ltb i (ngrad st) then o0 O else buf st i) true (ngrad st) (ngrad st) (Nat.max (nalloc st) (ngrad st))
+      (indep st) (dep st) (recording st) (errs st) (oob st).
+(* extend_gradients before a sweep: cover objects created since the initialisation, with zero gradient *)
+Definition extend (st : pstate) : pstate :=
+  mkP (tp st) (fun i => if Nat.leb (ninit st) i && Nat.ltb i (ngrad st) then o0 O else buf st i) (init st) (ngrad st) (ninit st)
+      (Nat.max (nalloc st) (ngrad st)) (indep st) (dep st) (recording st) (errs st) (oob st).
+(* a sweep touches every index below max_gradient: out of bounds if the buffer is shorter *)
+Definition sweep_oob (st : pstate) : nat := if Nat.leb (ngrad st) (nalloc st) then oob st else S (oob st).
 Fixpoint append_last (t : tape (T:=T)) (l : nat) (ops : list (T * nat)) : option tape :=
   match t with
   | [] => None
@@ -44,35 +58,43 @@ Fixpoint append_last (t : tape (T:=T)) (l : nat) (ops : list (T * nat)) : option
 Definition pstep (st : pstate) (o : pop) : pstate :=
   match o with
   | ORecord s => if recording st && stmt_lt (ngrad st) s then set_tp st (tp st ++ [s]) else st
-  | ORegister k => if recording st then mkP (tp st) (buf st) (init st) (Nat.max (ngrad st) k) (nalloc st) (indep st) (dep st) true (errs st) (oob st) else st
-  | ONewRecording ig => mkP [] (buf st) false (S ig) (nalloc st) [] [] (recording st) (errs st) (oob st)
+  | ORegister k => if recording st
+      then mkP (tp st) (buf st) (init st) (Nat.max (ngrad st) k) (ninit st) (nalloc st) (indep st) (dep st) true (errs st) (oob st) else st
+  | ONewRecording ig => mkP [] (buf st) false (S ig) (ninit st) (nalloc st) [] [] (recording st) (errs st) (oob st)
   | OSeed i x =>
       let st1 := if init st then st else initialize st in
-      if Nat.ltb i (ngrad st1)
-      then mkP (tp st1) (upd (buf st1) i x) true (ngrad st1) (nalloc st1) (indep st1) (dep st1) (recording st1) (errs st1)
+      if Nat.ltb i (ninit st1)
+      then mkP (tp st1) (upd (buf st1) i x) true (ngrad st1) (ninit st1) (nalloc st1) (indep st1) (dep st1) (recording st1) (errs st1)
                (if Nat.ltb i (nalloc st1) then oob st1 else S (oob st1))
-      else add_err st1
-  | OForward => if init st then set_buf st (fwd_sweep O (tp st) (buf st)) else add_err st
-  | OReverse => if init st then set_buf st (rev_sweep O (tp st) (buf st)) else add_err st
-  | OClearGradients => mkP (tp st) (buf st) false (ngrad st) (nalloc st) (indep st) (dep st) (recording st) (errs st) (oob st)
-  | OIndependent i => mkP (tp st) (buf st) (init st) (ngrad st) (nalloc st) (indep st ++ [i]) (dep st) (recording st) (errs st) (oob st)
-  | ODependent i => mkP (tp st) (buf st) (init st) (ngrad st) (nalloc st) (indep st) (dep st ++ [i]) (recording st) (errs st) (oob st)
-  | OClearIndependents => mkP (tp st) (buf st) (init st) (ngrad st) (nalloc st) [] (dep st) (recording st) (errs st) (oob st)
-  | OClearDependents => mkP (tp st) (buf st) (init st) (ngrad st) (nalloc st) (indep st) [] (recording st) (errs st) (oob st)
-  | OPause => mkP (tp st) (buf st) (init st) (ngrad st) (nalloc st) (indep st) (dep st) false (errs st) (oob st)
-  | OContinue => mkP (tp st) (buf st) (init st) (ngrad st) (nalloc st) (indep st) (dep st) true (errs st) (oob st)
+      else add_err st1 ERange
+  | OForward => if init st then let e := extend st in
+                  mkP (tp e) (fwd_sweep O (tp e) (buf e)) true (ngrad e) (ninit e) (nalloc e) (indep e) (dep e) (recording e) (errs e) (sweep_oob e)
+                else add_err st ENotInit
+  | OReverse => if init st then let e := extend st in
+                  mkP (tp e) (rev_sweep O (tp e) (buf e)) true (ngrad e) (ninit e) (nalloc e) (indep e) (dep e) (recording e) (errs e) (sweep_oob e)
+                else add_err st ENotInit
+  | OClearGradients => mkP (tp st) (buf st) false (ngrad st) (ninit st) (nalloc st) (indep st) (dep st) (recording st) (errs st) (oob st)
+  | OIndependent i => set_lists st (indep st ++ [i]) (dep st)
+  | ODependent i => set_lists st (indep st) (dep st ++ [i])
+  | OClearIndependents => set_lists st [] (dep st)
+  | OClearDependents => set_lists st (indep st) []
+  | OPause => set_recording st false
+  | OContinue => set_recording st true
   | OAddDep l ops => let s := mkStmt l (drop_zeros O ops) in
       if recording st && stmt_lt (ngrad st) s then set_tp st (tp st ++ [s]) else st
   | OAppendDep l ops =>
       if recording st && forallb (fun mi => Nat.ltb (snd mi) (ngrad st)) ops
-      then match append_last (tp st) l (drop_zeros O ops) with Some t => set_tp st t | None => add_err st end
+      then match append_last (tp st) l (drop_zeros O ops) with Some t => set_tp st t | None => add_err st EWrongGradient end
       else st
   end.
 Definition prun (ops : list pop) (st : pstate) : pstate := fold_left pstep ops st.
-Definition pinit : pstate := mkP [] (fun _ => o0 O) false 1 0 [] [] true 0 0.
+Definition pinit : pstate := mkP [] (fun _ => o0 O) false 1 0 0 [] [] true [] 0.
 
 (* observations *)
-Definition obs_gradient (st : pstate) (i : nat) : option T := if init st && Nat.ltb i (ngrad st) then Some (buf st i) else None.
+Definition obs_gradient (st : pstate) (i : nat) : option T := if init st && Nat.ltb i (ninit st) then Some (buf st i) else None.
+(* what get_gradient throws *)
+Definition obs_gradient_error (st : pstate) (i : nat) : option ekind :=
+  if negb (init st) then Some ENotInit else if Nat.ltb i (ninit st) then None else Some ERange.
 Definition obs_jacobian (st : pstate) : list (list T) :=
   map (fun j => map (fun i => fwd_sweep O (tp st) (unit_vec O j) i) (dep st)) (indep st).
 Definition obs_counts (st : pstate) : nat * nat := (length (tp st), fold_left (fun a s => a + length (rhs s)) (tp st) 0).
